@@ -257,7 +257,13 @@ fn dec_dns(t: &mut Toks) -> PResult<String> {
         t,
         Dns::decode,
         |v| CANON.msg(v),
-        |v| exercise(v, |v| v.encode().is_ok()),
+        |v| {
+            for rr in v.answers.iter().chain(&v.authorities).chain(&v.additionals) {
+                black_box(rr.get_ttl());
+                black_box(rr.get_class());
+            }
+            exercise(v, |v| v.encode().is_ok())
+        },
     )
 }
 
@@ -807,10 +813,11 @@ fn text_eq(t: &mut Toks) -> PResult<String> {
 // ---------------------------------------------------------------------------------------------
 
 macro_rules! enum_table {
-    ($enum:ty, $int:ty, $n:expr) => {
+    ($enum:ty, $int:ty, $n:expr, $tok:expr) => {
         match <$int>::try_from($n).ok().and_then(|i| <$enum>::try_from(i).ok()) {
             Some(v) => format!("ok {:?} {}", v, v as $int),
-            None => format!("err {}", $n),
+            // echo the input token (a number that does not fit the integer type included)
+            None => format!("err {}", $tok),
         }
     };
 }
@@ -819,29 +826,23 @@ fn enum_op(t: &mut Toks) -> PResult<String> {
     let table = t.next()?;
     let tok = t.next()?;
     t.end()?;
-    // saturated values print as the token itself: keep the text for the `err` line
     let n = lex_num(tok)?;
-    let r = match table {
-        "Type" => enum_table!(Type, u16, n),
-        "Class" => enum_table!(Class, u16, n),
-        "QType" => enum_table!(QType, u16, n),
-        "QClass" => enum_table!(QClass, u16, n),
-        "Opcode" => enum_table!(Opcode, u8, n),
-        "RCode" => enum_table!(RCode, u8, n),
-        "EDNSOptionCode" => enum_table!(EDNSOptionCode, u16, n),
-        "AlgorithmType" => enum_table!(AlgorithmType, u8, n),
-        "DigestType" => enum_table!(DigestType, u8, n),
-        "SSHFPAlgorithm" => enum_table!(SSHFPAlgorithm, u8, n),
-        "SSHFPType" => enum_table!(SSHFPType, u8, n),
-        "AFSDBSubtype" => enum_table!(AFSDBSubtype, u16, n),
-        "AddressFamilyNumber" => enum_table!(AddressFamilyNumber, u16, n),
+    Ok(match table {
+        "Type" => enum_table!(Type, u16, n, tok),
+        "Class" => enum_table!(Class, u16, n, tok),
+        "QType" => enum_table!(QType, u16, n, tok),
+        "QClass" => enum_table!(QClass, u16, n, tok),
+        "Opcode" => enum_table!(Opcode, u8, n, tok),
+        "RCode" => enum_table!(RCode, u8, n, tok),
+        "EDNSOptionCode" => enum_table!(EDNSOptionCode, u16, n, tok),
+        "AlgorithmType" => enum_table!(AlgorithmType, u8, n, tok),
+        "DigestType" => enum_table!(DigestType, u8, n, tok),
+        "SSHFPAlgorithm" => enum_table!(SSHFPAlgorithm, u8, n, tok),
+        "SSHFPType" => enum_table!(SSHFPType, u8, n, tok),
+        "AFSDBSubtype" => enum_table!(AFSDBSubtype, u16, n, tok),
+        "AddressFamilyNumber" => enum_table!(AddressFamilyNumber, u16, n, tok),
         _ => return Err(PErr::Bad),
-    };
-    if r.starts_with("err ") {
-        // echo the input token (identical to the number unless it saturated u128)
-        return Ok(format!("err {}", tok));
-    }
-    Ok(r)
+    })
 }
 
 // ---------------------------------------------------------------------------------------------
